@@ -156,21 +156,3 @@ func (st *StateDB) VerifC08RevisionIds() []int {
 	}
 	return out
 }
-
-// VerifC08AliasDepth returns the length of the validator journal up to and including the
-// newest validatorUpdateChange whose newVal IS (pointer) the stored object of addr; 0 if
-// no entry points at it.  An in-place update of that object changes what those entries undo.
-func (st *StateDB) VerifC08AliasDepth(addr common.Address) int {
-	obj, ok := st.validatorObjects.Load(addr)
-	if !ok || obj == nil {
-		return 0
-	}
-	cur := obj.(*Validator)
-	es := st.validatorJournal.entries
-	for i := len(es) - 1; i >= 0; i-- {
-		if ch, ok := es[i].(validatorUpdateChange); ok && ch.newVal == cur {
-			return i + 1
-		}
-	}
-	return 0
-}
